@@ -34,8 +34,17 @@ func addr20(s string) sdk.AccAddress { return sdk.AccAddress(sha256Sum("actor-" 
 func MakeActors() *Actors {
 	a := &Actors{}
 	for i := 1; i <= 3; i++ {
-		a.Owners = append(a.Owners, addr20(fmt.Sprintf("owner%d", i)))
-		a.Consumers = append(a.Consumers, addr20(fmt.Sprintf("consumer%d", i)))
+		o, c := addr20(fmt.Sprintf("owner%d", i)), addr20(fmt.Sprintf("consumer%d", i))
+		// addresses at the edges of the byte range: a scan whose end key is "last byte + 1", or a
+		// key that is cut at a zero byte, goes wrong only for such subjects
+		switch i {
+		case 2:
+			o[19], c[19] = 0xff, 0xff
+		case 3:
+			o[19], c[0] = 0x00, 0xff
+		}
+		a.Owners = append(a.Owners, o)
+		a.Consumers = append(a.Consumers, c)
 	}
 	a.Stranger = addr20("stranger")
 	a.ModCons = addr20("modconsumer")
